@@ -205,6 +205,12 @@ def check_case(case, acc):
                     combos += [dict(zip(WNAMES[:3], t)) for t in itertools.product((1, 2, 3), repeat=3) if len(set(t)) > 1 or t[0] > 1]
                     combos += [dict(zip(WNAMES[:3], t)) for t in ((4, 4, 7), (3, 3, 5), (5, 5, 6), (2, 2, 4))]
                 combos += [{n1: v1, n2: v2} for n1, n2 in itertools.combinations(acc_names, 2) for v1 in (1, 2) for v2 in (1, 2) if (v1, v2) != (1, 1)]
+                # large chain x loop multipliers: sums beyond 2^24 stay exact integers
+                big = {n: 4099 for n in acc_names if n in ("alpha_weight", "beta_weight", "cdr3_weight")}
+                if len(big) >= 2:
+                    combos.append(big)
+                    combos.append(dict(big, substitution_weight=3, insertion_weight=2, deletion_weight=2))
+                    acc.cls("weighted-sum-beyond-2^24")
                 for kw in combos:
                     m, kw2 = make(cls, kw)
                     if not _cmp(acc, cls, kw2, (ra,), (rc,), m, A, C, "weight-star", ("w1", ra, rc, cls, tuple(sorted(kw.items())))):
